@@ -1,6 +1,6 @@
 """C11 - farm lifecycle conserves funds and respects owners and limits (structural part)."""
 import re
-from rules.common import (PredTrue, PredFalse, TryOk, CallTrue, EQ, VariantEdge, NONPAYABLE, IS_OWNER, no_effects, where, flat_atoms,
+from rules.common import (opmap, PredTrue, PredFalse, TryOk, CallTrue, EQ, VariantEdge, NONPAYABLE, IS_OWNER, no_effects, where, flat_atoms,
                           all_origins, exact_origins, ops_of, show, origin_match, eq_test, pred_test, data_test, field_val,
                           effects_signature, overrides)
 from rules.C15 import FARM_OWNER
@@ -95,7 +95,7 @@ def run(W, chk):
     rf = sends.get(("info.sender",), [])
     okr = len(rf) == 1
     if okr:
-        am = {o: ops for (o, ops) in flat_atoms(A.d(vfield(vfield(field_val(rf[0], "amount"), "[*]"), "amount")))}
+        am = opmap(A.d(vfield(vfield(field_val(rf[0], "amount"), "[*]"), "amount")))
         okr = am == {"Store(CONFIG).create_farm_fee.amount": frozenset(["sat", "sub", "sub:r"]), "info.funds[*].amount": frozenset(["sat", "sub", "sub:l"])}
     chk.expect(okr, "PROV-farm-fee", "refund", "overpayment refund to info.sender = paid - fee", "refund messages: %d / %s" % (len(rf), [show(A.d(field_val(x, "amount")))[:200] for x in rf]),
                where(rf[0]) if rf else A.entry)
@@ -110,7 +110,7 @@ def run(W, chk):
               ("lp_denom", exact_origins(vfield(v, "lp_denom")) == {MP + ".lp_denom"})]
         for f, ok in ck:
             chk.expect(ok, "PROV-farm-fields", "create." + f, "%s recorded as specified" % f, "new farm %s <- %s" % (f, show(vfield(v, f))[:200]), where(e))
-        er = {o: ops for (o, ops) in flat_atoms(vfield(v, "emission_rate")) if not o.startswith("Const(")}
+        er = opmap(vfield(v, "emission_rate"), lambda o, ops: not o.startswith("Const("))
         chk.expect(er.get(MP + ".farm_asset.amount") == frozenset(["div_floor", "div:l"]) and "div_ceil" not in ops_of(vfield(v, "emission_rate")),
                    "PROV-farm-fields", "create.emission_rate", "emission_rate = amount div_floor (end - start)", "emission_rate <- %s" % {k: sorted(x) for k, x in er.items()}, where(e))
         key = e.extra.get("key", EMPTY)
@@ -144,10 +144,10 @@ def run(W, chk):
     A = W.run(fm, "execute", EXPAND)
     for e in farm_saves(A):
         v = e.extra.get("value", EMPTY)
-        am = {o: ops for (o, ops) in flat_atoms(vfield(vfield(v, "farm_asset"), "amount"))}
+        am = opmap(vfield(vfield(v, "farm_asset"), "amount"))
         chk.expect(am == {"Store(FARMS).farm_asset.amount": frozenset(["add"]), "info.funds[*].amount": frozenset(["add"])}, "PROV-farm-fields", "expand.amount",
                    "budget += attached amount (checked)", "expanded budget <- %s" % {k: sorted(x) for k, x in am.items()}, where(e))
-        en = {o: ops for (o, ops) in flat_atoms(vfield(v, "preliminary_end_epoch"))}
+        en = opmap(vfield(v, "preliminary_end_epoch"))
         want = {"Store(FARMS).preliminary_end_epoch": frozenset(["add"]), "Store(FARMS).emission_rate": frozenset(["add", "div_floor", "div:r"]),
                 XP + ".farm_asset.amount": frozenset(["add", "div_floor", "div:l"])}
         chk.expect(en == want, "PROV-farm-fields", "expand.end", "end += amount div_floor emission_rate", "end epoch <- %s" % {k: sorted(x) for k, x in en.items()}, where(e))
@@ -202,7 +202,7 @@ def close_refund(chk, A, lab):
         if not e.fn.endswith("close_farms"):
             continue
         to = exact_origins(A.d(field_val(e, "to_address")))
-        am = {o: ops for (o, ops) in flat_atoms(A.d(vfield(vfield(field_val(e, "amount"), "[*]"), "amount")))}
+        am = opmap(A.d(vfield(vfield(field_val(e, "amount"), "[*]"), "amount")))
         good = to == {"Store(FARMS).owner"} and am == {"Store(FARMS).farm_asset.amount": frozenset(["sat", "sub", "sub:l"]),
                                                        "Store(FARMS).claimed_amount": frozenset(["sat", "sub", "sub:r"])}
         den = all_origins(A.d(vfield(vfield(field_val(e, "amount"), "[*]"), "denom")))
